@@ -442,6 +442,15 @@ func (l *Lexer) advance() {
 	}
 }
 
+// utf16Units returns the number of UTF-16 code units of s.
+func utf16Units(s string) int {
+	n := 0
+	for _, r := range s {
+		n += utf16Width(r)
+	}
+	return n
+}
+
 // utf16Width returns the number of UTF-16 code units of r (LSP columns count UTF-16 units).
 func utf16Width(r rune) int {
 	if r >= 0x10000 {
